@@ -36,7 +36,6 @@ def _relerr(obs, exp):
 
 # ------------------------------------------------------------------ 2. table replay
 def replay_table(run, table, meta, rng, stats):
-    import numpy
     for model in sorted(table):
         calc = meta[model]["calc"]
         cls = meta[model]["cls"]
